@@ -4,7 +4,13 @@ pub mod c05;
 pub mod c06;
 pub mod c07;
 pub mod c08;
+pub mod c09;
+pub mod c10;
+pub mod c11;
+pub mod c12;
 pub mod c13;
+pub mod c19;
+pub mod c20;
 pub mod c18;
 pub mod c14;
 
